@@ -505,4 +505,14 @@ def rule_backend(ctx):
     return r
 
 
-RULES = [rule_backend, rule_merge, rule_record, rule_consume, rule_recipes, rule_root, rule_topo]
+def rule_copy(ctx):
+    """Shared with C04-COPY (seed C01_7): a complete tree that was merely *copied* (every non-inplace call copies)
+    must keep contracting to the einsum value whatever is done to the copy — the lazily filled preprocessing map
+    and the per-node recipes are not shared."""
+    from .c04 import rule_copy as src
+
+    return C.reuse_rule(ctx, src, "C04-COPY", "C01-COPY",
+                        "what a tree executes is not shared with its copies", lambda i: True, 10)
+
+
+RULES = [rule_copy, rule_backend, rule_merge, rule_record, rule_consume, rule_recipes, rule_root, rule_topo]
